@@ -12,9 +12,9 @@
      muduo/base/TimeZone.cc:318-491 branch by branch; std::upper_bound is modelled as the
      libstdc++ binary search (not as a linear scan), so the theorem that it finds the
      last transition <= t needs sortedness as a hypothesis, exactly like the C++;
-   * printf / inet_ntop / inet_pton are platform functions: the integer formatting that
-     muduo's format strings request, the IPv4 dotted quad and the ip:port assembly are
-     modelled; their agreement with glibc is validated by the correspondence check. *)
+   * printf is a platform function: the integer formatting that muduo's format strings
+     request is modelled; its agreement with glibc is validated by the correspondence
+     check.  Addresses and byte order: C20_NetModel.v; the TZif reader: C20_TzifModel.v. *)
 From Coq Require Import List ZArith Bool Arith NArith.
 From Coq.Strings Require Import Byte.
 From Muduo Require Import Base_Bytes Gen_C20.
@@ -239,111 +239,3 @@ Definition ts_parseFormatted (l : list byte) : Z :=
   let f a n := parse_dec (firstn n (skipn a l)) in
   fromUtc (mkDT (f 0 4) (f 4 2) (f 6 2) (f 9 2) (f 12 2) (f 15 2))%nat * kMicroSecondsPerSecond
   + f 18%nat 6%nat.
-
-(* ------------------------------------------------------------------ addresses *)
-
-(* join / split on a separator byte *)
-Fixpoint join (sep : byte) (ls : list (list byte)) : list byte :=
-  match ls with
-  | [] => []
-  | [x] => x
-  | x :: rest => x ++ sep :: join sep rest
-  end.
-
-Fixpoint split_all_aux (sep : byte) (l cur : list byte) : list (list byte) :=
-  match l with
-  | [] => [rev cur]
-  | b :: r => if Byte.eqb b sep then rev cur :: split_all_aux sep r [] else split_all_aux sep r (b :: cur)
-  end.
-Definition split_all (sep : byte) (l : list byte) : list (list byte) := split_all_aux sep l [].
-
-(* inet_ntop(AF_INET): the four bytes of in_addr (network order) in decimal *)
-Definition ntop4 (a : list byte) : list byte := join ch_dot (map (fun b => dec (Z_of_byte b)) a).
-
-(* one field of inet_pton(AF_INET): 1..3 digits, no leading zero, value <= 255 *)
-Definition parse_octet (f : list byte) : option byte :=
-  match f with
-  | [] => None
-  | d :: r =>
-    if forallb is_digit f && (length f <=? 3)%nat &&
-       (match r with [] => true | _ => negb (Byte.eqb d x30) end) && (parse_dec f <=? 255)
-    then Some (byte_of_Z (parse_dec f)) else None
-  end.
-
-Fixpoint all_some {A} (l : list (option A)) : option (list A) :=
-  match l with
-  | [] => Some []
-  | Some x :: r => match all_some r with Some xs => Some (x :: xs) | None => None end
-  | None :: _ => None
-  end.
-
-Definition pton4 (s : list byte) : option (list byte) :=
-  let fs := split_all ch_dot s in
-  if (length fs =? 4)%nat then all_some (map parse_octet fs) else None.
-
-(* sockaddr_in / sockaddr_in6 as far as muduo touches them: family, port bytes (network
-   order, as stored), address bytes (network order) *)
-Inductive family := AF_INET | AF_INET6.
-Record sockaddr := mkSA { sa_family : family; sa_port : list byte; sa_addr : list byte }.
-
-(* hostToNetwork16 + store / load + networkToHost16 *)
-Definition port_store (p : Z) : list byte := be_encode 2 p.
-Definition port_load (pb : list byte) : Z := be_decode pb.
-
-(* sockets::toIp: the platform printers; inet_ntop(AF_INET6) stays a parameter *)
-Definition toIp (ntop6 : list byte -> list byte) (sa : sockaddr) : list byte :=
-  match sa_family sa with AF_INET => ntop4 (sa_addr sa) | AF_INET6 => ntop6 (sa_addr sa) end.
-
-(* sockets::toIpPort *)
-Definition toIpPort (ntop6 : list byte -> list byte) (sa : sockaddr) : list byte :=
-  match sa_family sa with
-  | AF_INET6 => [ch_lbr] ++ toIp ntop6 sa ++ [ch_rbr; ch_colon] ++ dec (port_load (sa_port sa))
-  | AF_INET => toIp ntop6 sa ++ [ch_colon] ++ dec (port_load (sa_port sa))
-  end.
-
-(* InetAddress(ip, port, ipv6): family choice and sockets::fromIpPort; a failed
-   inet_pton leaves the zeroed address (and logs) *)
-Definition has_colon (s : list byte) : bool := existsb (fun b => Byte.eqb b ch_colon) s.
-
-Definition zero_bytes (n : nat) : list byte := repeat x00 n.
-
-Definition inet_make (pton6 : list byte -> option (list byte)) (ip : list byte) (port : Z) (ipv6 : bool)
-  : sockaddr :=
-  if ipv6 || has_colon ip then
-    mkSA AF_INET6 (port_store port) (match pton6 ip with Some a => a | None => zero_bytes 16 end)
-  else
-    mkSA AF_INET (port_store port) (match pton4 ip with Some a => a | None => zero_bytes 4 end).
-
-(* InetAddress(port, loopbackOnly, ipv6) *)
-Definition inet_port_only (port : Z) (loopbackOnly ipv6 : bool) : sockaddr :=
-  if ipv6 then
-    mkSA AF_INET6 (port_store port) (if loopbackOnly then zero_bytes 15 ++ [x01] else zero_bytes 16)
-  else
-    mkSA AF_INET (port_store port) (if loopbackOnly then [x7f; x00; x00; x01] else zero_bytes 4).
-
-(* reader of "ip:port" / "[ip6]:port" (split at the LAST colon) *)
-Fixpoint split_last_aux (sep : byte) (l : list byte) : option (list byte * list byte) :=
-  match l with
-  | [] => None
-  | b :: r =>
-    match split_last_aux sep r with
-    | Some (x, y) => Some (b :: x, y)
-    | None => if Byte.eqb b sep then Some ([], r) else None
-    end
-  end.
-
-Definition parse_ipport (s : list byte) : option (bool * list byte * Z) :=
-  match split_last_aux ch_colon s with
-  | None => None
-  | Some (h, p) =>
-    match h with
-    | b :: r =>
-      if Byte.eqb b ch_lbr then
-        match rev r with
-        | e :: mid => if Byte.eqb e ch_rbr then Some (true, rev mid, parse_dec p) else None
-        | [] => None
-        end
-      else Some (false, h, parse_dec p)
-    | [] => None
-    end
-  end.
